@@ -3,6 +3,7 @@ CONSTANTS
   Srcs = {"s1.csv", "s2.csv"}
   Contents = {1, 2, 3}
   MaxLen = 3
+  Race = FALSE
 INIT Init
 NEXT Next
 INVARIANT CurrentOnDisk
